@@ -338,7 +338,15 @@ impl Number {
                 if let Some(exact) = exact {
                     exact.into()
                 } else {
-                    num.to_f64().unwrap_or(f64::NAN).powf(exp as f64).into()
+                    // The exact power, rounded once: raising the rounded base instead
+                    // multiplies its rounding error by the exponent.
+                    BigRational::new_raw(
+                        BigInt::from(*num.numer()).pow(exp),
+                        BigInt::from(*num.denom()).pow(exp),
+                    )
+                    .to_f64()
+                    .unwrap_or(f64::NAN)
+                    .into()
                 }
             }
         }
